@@ -226,9 +226,20 @@ class Reach:
         self.through_callbacks = through_callbacks
         self._exported = exported_names(F.jf)
 
+    # 0: a const is read through only when it holds a condition (comparison, !, &&, ||) or another name;
+    # 1: every never-reassigned const is read through (`const ok = fs.existsSync(f); if (ok)` is `if (fs.existsSync(f))`)
+    resolve_level = 0
+
     def _at(self, top):
         def atomz(e):
             a = self.atomize(e, top)
+            if a is None and e.get("type") == "Identifier" and e["value"] not in JF.REN[0]:
+                init = self.F.resolve_const(top)(e["value"])
+                i0 = JF.unparen(init) if init is not None else None
+                if i0 is not None:
+                    cond_like = (i0.get("type") == "BinaryExpression" and i0.get("operator") in ("===", "!==", "==", "!=", "<", ">", "<=", ">=", "&&", "||")) or (i0.get("type") == "UnaryExpression" and i0.get("operator") == "!") or i0.get("type") == "Identifier"
+                    if cond_like or (self.resolve_level >= 1 and i0.get("type") in ("CallExpression", "MemberExpression", "OptionalChainingExpression")):
+                        return None  # jsflow.formula reads the const through its initialiser
             if a is None and e.get("type") == "CallExpression" and chain(e) == ["Boolean"] and len(args(e)) == 1:
                 return None  # jsflow.formula reads Boolean(x) as the truthiness of x
             if a is None and e.get("type") == "CallExpression":
@@ -336,15 +347,28 @@ class Reach:
                     ren = {k: v for k, v in ren.items() if k not in F.params(inner)}
         return list(zip(levels, rens))
 
-    def of(self, site):
+    def _of(self, site):
         alts = []
         for ch in self.chains(site):
             fs = [self.local(s, top, ren) for (top, s), ren in self.renaming(ch)]
             alts.append(BF.conj(fs))
         return BF.disj(alts)
 
+    def of(self, site):
+        return self.any_of([site])
+
     def any_of(self, sites):
-        return BF.disj([self.of(s) for s in sites])
+        """the reach formula; carries `.alt`, the same formula with every const read through (see resolve_level)"""
+        f0 = BF.disj([self._of(s) for s in sites])
+        old = self.resolve_level
+        self.resolve_level = 1
+        try:
+            f1 = BF.disj([self._of(s) for s in sites])
+        finally:
+            self.resolve_level = old
+        out = _Formula(f0)
+        out.alt = f1
+        return out
 
     def arg_text(self, site, e):
         """texts of expression e (inside site's function) as seen from the outermost function of each chain"""
@@ -377,10 +401,22 @@ def equivalent(f, g, axioms=()):
     return BF.entails([f] + list(axioms), g) and BF.entails([g] + list(axioms), f)
 
 
+class _Formula(tuple):
+    """a boolform formula (a tuple) that can carry an alternative rendering of the same condition"""
+    alt = None
+
+
 def expect_gate(c, R, key, where, reach, goal, what, axioms=(), only_necessary=False, only_sufficient=False):
     """reach <=> goal (or one direction)"""
     fwd = only_sufficient or BF.entails([reach] + list(axioms), goal)
     back = only_necessary or BF.entails([goal] + list(axioms), reach)
+    alt = getattr(reach, "alt", None)
+    if not (fwd and back) and alt is not None and tuple(alt) != tuple(reach):
+        # the same condition with named intermediate results read through
+        fwd2 = only_sufficient or BF.entails([alt] + list(axioms), goal)
+        back2 = only_necessary or BF.entails([goal] + list(axioms), alt)
+        if fwd2 and back2:
+            fwd, back = True, True
     if fwd and back:
         c.ok(R, key, where, "%s exactly when %s" % (what, BF.show(goal)))
     elif not fwd:
@@ -1086,6 +1122,19 @@ def rule_exports(c, R, main):
         if t == "UnaryExpression" and e["operator"] == "!":
             v = value(e["argument"], env)
             return UNK if v is UNK else (not v)
+        if t == "CallExpression" and len(chain(e)) == 1 and chain(e)[0] in F.decls and not args(e) and len(env.get("__depth", ())) < 3:
+            # a local helper without arguments: what it returns when nothing in it throws (the native module loads)
+            g_ = F.decls[chain(e)[0]]
+            if g_.get("type") in ("FunctionDeclaration", "FunctionExpression", "ArrowFunctionExpression"):
+                outs_ = []
+                for conds_, ret_ in F.fn(g_).decision_paths():
+                    if any(isinstance(ce, tuple) and ce[0] == "threw" for ce, _ in conds_):
+                        continue
+                    v_ = value(ret_, {"__depth": tuple(env.get("__depth", ())) + (1,)}) if ret_ is not None else None
+                    outs_.append(v_)
+                if outs_ and all(o_ is not UNK for o_ in outs_) and len({repr(o_) for o_ in outs_}) == 1:
+                    return outs_[0]
+            return UNK
         if t == "BinaryExpression" and e["operator"] in ("===", "==", "!==", "!="):
             l, r = value(e["left"], env), value(e["right"], env)
             if l is UNK or r is UNK:
@@ -1161,7 +1210,11 @@ def rule_exports(c, R, main):
         c.expect(jsast.ident_name(sup) == got2, R, R + "/export/extends", main.loc(classes[got]), "%s extends %s" % (got, got2), "%s does not extend %s" % (got, got2))
     # the native class is the one loaded from the wasm module
     nat = [n for n in jsast.walk(main.program) if n.get("type") == "AssignmentExpression" and jsast.ident_name(n["left"]) == "NativeRewriter"]
-    c.expect(len(nat) == 1 and (jsast.member_chain(nat[0]["right"]) or [""])[-1] == "Rewriter", R, R + "/native-class", main.loc(nat[0]) if nat else "main.js", "NativeRewriter = <wasm module>.Rewriter", "NativeRewriter is assigned %s" % (JF.text(nat[0]["right"]) if nat else None))
+    def _last_prop(e_):
+        e_ = JF.unparen(e_)
+        return (e_.get("property") or {}).get("value") if e_.get("type") == "MemberExpression" else None
+
+    c.expect(len(nat) == 1 and ((jsast.member_chain(nat[0]["right"]) or [""])[-1] == "Rewriter" or _last_prop(nat[0]["right"]) == "Rewriter"), R, R + "/native-class", main.loc(nat[0]) if nat else "main.js", "NativeRewriter = <wasm module>.Rewriter", "NativeRewriter is assigned %s" % (JF.text(nat[0]["right"]) if nat else None))
 
 
 def rule_map_table(c, R, nsm, sm):
@@ -1222,8 +1275,10 @@ def rule_map_table(c, R, nsm, sm):
     # names bound to a slot of an array by destructuring: const { 0: a, 1: b } = e / const [a, b] = e
     slots = {}
     for d in jsast.walk(jf.program):
-        if d.get("type") == "VariableDeclarator" and d.get("init") is not None and JF.unparen(d["init"]).get("type") == "Identifier":
-            base = JF.unparen(d["init"])["value"]
+        if d.get("type") == "VariableDeclarator" and d.get("init") is not None and JF.unparen(d["init"]).get("type") in ("Identifier", "MemberExpression"):
+            i0_ = JF.unparen(d["init"])
+            # destructured from a name, or directly from `<..>._mappings[i]` (the base is then that text)
+            base = i0_["value"] if i0_.get("type") == "Identifier" else JF.text(i0_)
             if d["id"].get("type") == "ObjectPattern":
                 for pp in d["id"]["properties"]:
                     if pp.get("type") == "KeyValuePatternProperty" and pp["key"].get("type") == "NumericLiteral" and jsast.ident_name(pp["value"]):
@@ -1322,13 +1377,30 @@ def rule_map_table(c, R, nsm, sm):
         ifs = [x for x in jsast.walk(lp["body"]) if x.get("type") == "IfStatement"]
         okl = False
         for st_ in ifs:
-            probes = {jsast.ident_name(d["id"]) for d in jsast.walk(lp) if d.get("type") == "VariableDeclarator" and d.get("init") is not None and JF.unparen(d["init"]).get("type") == "MemberExpression" and JF.text(JF.unparen(d["init"])["object"]).endswith("_mappings")}
-            f_ = JF.formula(st_["test"], lambda e: probe_atom(e, probes))
+            pd_ = [d for d in jsast.walk(lp) if d.get("type") == "VariableDeclarator" and d.get("init") is not None and JF.unparen(d["init"]).get("type") == "MemberExpression" and JF.text(JF.unparen(d["init"])["object"]).endswith("_mappings")]
+            probes = {jsast.ident_name(d["id"]) for d in pd_ if jsast.ident_name(d["id"])} | {JF.text(JF.unparen(d["init"])) for d in pd_}
+            # the index the probe is read at (`middle`)
+            probe_idx = {JF.text(JF.unparen(JF.unparen(d["init"])["property"].get("expression") or {})) for d in pd_ if JF.unparen(d["init"])["property"].get("type") == "Computed"}
+            f_ = JF.formula(st_["test"], lambda e: probe_atom(e, probes), F.resolve_const(fe))
+            swapped = False
             if not equivalent(f_, lex):
-                continue
-            cons = [JF.text(x["expression"]["left"]) + x["expression"]["operator"] + JF.text(x["expression"]["right"]) for x in JF.stmts_of(st_["consequent"]) if x.get("type") == "ExpressionStatement" and x["expression"].get("type") == "AssignmentExpression"]
-            alt = [JF.text(x["expression"]["left"]) + x["expression"]["operator"] + JF.text(x["expression"]["right"]) for x in JF.stmts_of(st_.get("alternate")) if x.get("type") == "ExpressionStatement" and x["expression"].get("type") == "AssignmentExpression"]
-            okl = cons == ["count=step"] and sorted(alt) == ["count-=step", "first=middle"]
+                if equivalent(f_, BF.neg(lex)) and st_.get("alternate") is not None:
+                    swapped = True  # `if (!(before)) { .. } else { .. }`
+                else:
+                    continue
+            b_cons, b_alt = (st_["consequent"], st_.get("alternate")) if not swapped else (st_.get("alternate"), st_["consequent"])
+            cons_a = [x["expression"] for x in JF.stmts_of(b_cons) if x.get("type") == "ExpressionStatement" and x["expression"].get("type") == "AssignmentExpression"]
+            alt_a = [x["expression"] for x in JF.stmts_of(b_alt) if x.get("type") == "ExpressionStatement" and x["expression"].get("type") == "AssignmentExpression"]
+            cons = [JF.text(x["left"]) + x["operator"] + JF.text(x["right"]) for x in cons_a]
+            alt = [JF.text(x["left"]) + x["operator"] + JF.text(x["right"]) for x in alt_a]
+            # before the probe: the remaining count becomes the step (left half); otherwise the search moves to the
+            # probe index and the count shrinks by the step - whatever the four variables are called
+            okl = False
+            if len(cons_a) == 1 and cons_a[0]["operator"] == "=" and len(alt_a) == 2:
+                cnt, stp = JF.text(cons_a[0]["left"]), JF.text(cons_a[0]["right"])
+                moves = [x for x in alt_a if x["operator"] == "=" and JF.text(x["right"]) in probe_idx]
+                shrinks = [x for x in alt_a if x["operator"] == "-=" and JF.text(x["left"]) == cnt and JF.text(x["right"]) == stp]
+                okl = len(moves) == 1 and len(shrinks) == 1 and cnt != stp
             c.expect(okl, R, R + "/search-step", jf.loc(st_), "position before the probe: keep the left half; otherwise move to the probe and keep the rest", "the halving step is %s / %s" % (cons, alt))
         c.expect(okl, R, R + "/search-order", jf.loc(lp), "the probe is compared lexicographically on (generated line, generated column)", "findEntry does not compare (line, column) lexicographically with the probed segment")
 
